@@ -331,4 +331,29 @@ func init() {
 		Outside: "emptiness of a (re)created table's data (the state-machine directory is derived from name and id; exercising FSM.Open needs the file-system model: see C04) and isolation between shards; names containing '/'; actual shard start/stop inside dragonboat; Restore's id switch",
 		Assumptions: []string{"M2 with the real LFSM (C13); M4 json round trip of table.Table", "StartOnDiskReplica/HasNodeInfo only record their arguments"},
 	}
+	props["C16"] = &Property{
+		Title: "invalid requests rejected without effect; no crash",
+		Instances: func(tier string) []*Instance {
+			rs := "regattaserver"
+			return []*Instance{
+				{Pkg: rs, Func: "VH_C16_range", Args: []int64{0}, Unwind: 64},
+				{Pkg: rs, Func: "VH_C16_range", Args: []int64{1}, Unwind: 64},
+				{Pkg: rs, Func: "VH_C16_write", Args: []int64{0}, Unwind: 64},
+				{Pkg: rs, Func: "VH_C16_write", Args: []int64{1}, Unwind: 64},
+				{Pkg: rs, Func: "VH_C16_txn", Args: []int64{0}, Unwind: 64},
+				{Pkg: rs, Func: "VH_C16_txn", Args: []int64{1}, Unwind: 64},
+				{Pkg: rs, Func: "VH_C16_txn", Args: []int64{2}, Unwind: 64},
+				{Pkg: rs, Func: "VH_C16_txn", Args: []int64{3}, Unwind: 64},
+				{Pkg: rs, Func: "VH_C16_tables", Unwind: 64},
+				{Pkg: rs, Func: "VH_C16_vacuity", Expect: "violated"},
+			}
+		},
+		Covers: map[string][]string{"VH_C16_range": {"end", "malformed", "unsupported", "unknown-table", "oversize", "valid"}, "VH_C16_write": {"end", "malformed", "oversize", "valid"}, "VH_C16_txn": {"end"}, "VH_C16_tables": {"end"}},
+		Bounds: map[string]string{
+			"quick":    "every combination of: table absent / known / unknown; key and range_end absent / 1 arbitrary byte / 1024 bytes / 1025 bytes; value absent / 1 byte / 2 MiB / 2 MiB+1; limit any int64; all boolean flags; each revision filter; transactions with one nested put / delete / range (same classes) or an empty oneof; Tables create/delete of missing / existing / new name on leader and follower servers; a panic anywhere below the RPC method is a violation",
+			"thorough": "same",
+		},
+		Outside: "field lengths other than the class representatives (lengths only enter through len() comparisons with 0, 1024 and 2 MiB); transactions with more than one operation; gRPC transport-level limits; exact status code for oversize keys/values and for leader-side Tables errors (non-OK and no effect are demanded)",
+		Assumptions: []string{"M1, M2 (real Engine, Manager, RaftStore+LFSM, ActiveTable, FSM behind the NodeHost model), M4, M5 (status codes as opaque errors)"},
+	}
 }
